@@ -340,6 +340,10 @@ func c12Gen(t *rapid.T) c12Case {
 	if rapid.IntRange(0, 3).Draw(t, "bigk") == 0 {
 		c.K = rapid.SampledFrom([]int{-60, -40, -30, -24, -20, 20, 30, 40, 60}).Draw(t, "kfar")
 	}
+	// the scaled pair stays inside the range where every cross product is exact (finding KF-RANGE beyond it)
+	if s := c.Pair.EA.Scale + c.K; s > 470 || s < -470 {
+		c.K = -c.K
+	}
 	return c
 }
 
